@@ -35,8 +35,27 @@ theorem getValueSlice_spec (f : LenForm) (t : Nat) (c pre rest : Bytes) (hf : f.
     simp only [List.length_append, List.length_cons, List.length_nil]; omega
   simp only [hstop, ↓reduceIte, pure, Except.pure]
 
+/-- the registered classes `x690.decode` cannot instantiate are PDU classes (generated tables) -/
+theorem noDefaultCtor_pdu :
+    ∀ e ∈ Gen.registry, Gen.noDefaultCtor.contains e.2.2.2.1 = true → e.2.2.2.2.1 = "pdu" := by
+  decide +kernel
+
+/-- hence every identifier octet of another kind stands for a class that can be instantiated -/
+theorem ctor_of_not_pdu (t : Nat) (h : (lookup t).kind ≠ "pdu") :
+    Gen.noDefaultCtor.contains (lookup t).name = false := by
+  unfold lookup at h ⊢
+  cases hf : Gen.registry.find? (fun e => e.1 == clsName t && e.2.1 == t % 32 && e.2.2.1 == natureName t) with
+  | none => simp [hf]; decide
+  | some e =>
+    simp only [hf] at h ⊢
+    have hmem := List.mem_of_find?_eq_some hf
+    cases hc : Gen.noDefaultCtor.contains e.2.2.2.1 with
+    | false => rfl
+    | true => exact absurd (noDefaultCtor_pdu e hmem hc) h
+
 /-- `x690.decode` finds the class registered for the identifier octet and the exact content -/
-theorem decodeAt_spec (f : LenForm) (t : Nat) (c pre rest : Bytes) (hf : f.ok c.length) (ht : t ≠ 255) :
+theorem decodeAt_spec (f : LenForm) (t : Nat) (c pre rest : Bytes) (hf : f.ok c.length) (ht : t ≠ 255)
+    (hctor : Gen.noDefaultCtor.contains (lookup t).name = false) :
     ∃ n, decodeAt (pre ++ Spec.tlv f t c ++ rest) pre.length =
         .ok (n, pre.length + (Spec.tlv f t c).length) ∧
       n.entry = lookup t ∧ n.tagByte = t ∧ n.content (pre ++ Spec.tlv f t c ++ rest) = c := by
@@ -47,7 +66,7 @@ theorem decodeAt_spec (f : LenForm) (t : Nat) (c pre rest : Bytes) (hf : f.ok c.
   · unfold decodeAt
     simp only [hget, ht, ↓reduceIte]
     rw [getValueSlice_spec f t c pre rest hf]
-    simp only [Except.bind, bind, pure, Except.pure]
+    simp only [Except.bind, bind, pure, Except.pure, hctor, Bool.false_eq_true, ↓reduceIte]
     congr 2
     simp [Spec.tlv]; omega
   · unfold Node.content
